@@ -23,7 +23,7 @@ import valida
 import valida.rules
 import valida.schema
 
-from .terms import snap, diff_path, attr_locus
+from .terms import snap, diff_path, attr_locus, _slot_names
 
 VALIDA_DIR = os.path.dirname(os.path.abspath(valida.__file__)) + os.sep
 # code whose lines / instructions are pre-emption points (the engine self-test
@@ -50,7 +50,9 @@ class OpTimeout(BaseException):
     `operation_did_not_terminate`, never as a harness error."""
 
 
-OP_WALL_LIMIT = 15.0  # seconds; ordinary operations take milliseconds
+OP_WALL_LIMIT = 60.0  # seconds; ordinary operations take milliseconds
+LOCK_STALL_S = 2.0  # no step for this long: the baton holder is blocked on a real lock
+RUN_WALL_LIMIT = 600.0  # a single pre-emptive run (harness-level safety net)
 
 
 # --------------------------------------------------------------------------
@@ -75,16 +77,27 @@ def _install_write_tracer():
     from valida.data import Data
 
     classes = [ConditionLike, PreparedConditionCallable, DataPath, ContainerValue, Rule, Schema, Data]
+    # plus every valida class that defines an attribute hook of its own (it
+    # would otherwise shadow the wrapper installed on its base class)
+    for name, mod in sorted(sys.modules.items()):
+        if mod is not None and (name == "valida" or name.startswith("valida.")):
+            for v in vars(mod).values():
+                if isinstance(v, type) and getattr(v, "__module__", "").startswith("valida") and v not in classes:
+                    if "__setattr__" in v.__dict__ or "__delattr__" in v.__dict__:
+                        classes.append(v)
 
     def make(cls):
+        base_set = cls.__setattr__  # the class's own hook, or object.__setattr__
+        base_del = cls.__delattr__
+
         def __setattr__(self, name, value):
-            object.__setattr__(self, name, value)
+            base_set(self, name, value)
             m = _ACTIVE_MONITOR
             if m is not None and id(self) in m.ids:
                 m.on_write(self, name, sys._getframe(1))
 
         def __delattr__(self, name):
-            object.__delattr__(self, name)
+            base_del(self, name)
             m = _ACTIVE_MONITOR
             if m is not None and id(self) in m.ids:
                 m.on_write(self, name, sys._getframe(1))
@@ -112,9 +125,13 @@ def _walk_instances(obj, seen, out, depth=0):
     elif isinstance(obj, dict):
         for k, v in obj.items():
             _walk_instances(v, seen, out, depth + 1)
-    elif type(obj).__module__.startswith("valida") and hasattr(obj, "__dict__"):
+    elif type(obj).__module__.startswith("valida") and not isinstance(obj, type):
         out.append(obj)
-        for v in vars(obj).values():
+        vals = list(vars(obj).values()) if hasattr(obj, "__dict__") else []
+        for n in _slot_names(type(obj)):
+            if hasattr(obj, n):
+                vals.append(getattr(obj, n))
+        for v in vals:
             _walk_instances(v, seen, out, depth + 1)
 
 
@@ -171,7 +188,9 @@ class Monitor:
         EVERY pre-emption point."""
         out = [o for o in self.objs if isinstance(o, (list, dict))]
         for o in self._keep:
-            for v in vars(o).values():
+            vals = list(vars(o).values()) if hasattr(o, "__dict__") else []
+            vals += [getattr(o, n) for n in _slot_names(type(o)) if hasattr(o, n)]
+            for v in vals:
                 if isinstance(v, (list, dict, set)):
                     out.append(v)
         return out
@@ -555,8 +574,13 @@ class Engine:
         self.probes = {}
         self.harness_error = None
         self.killed = False
+        self.park_order = []  # callers waiting for the baton, most recently parked last
+        self.blocked = set()  # callers the baton was taken from while blocked on a real lock
+        self.hold_until_boundary = set()  # lock holders that are not pre-empted again before their operation ends
+        self.lock_stalls = 0
         self.suspend_faults = False
         self.last_check_step = 0
+        self.writes_seen = 0
         self.digest_checks = 0
         self.cur_frame = None
         self.current = None
@@ -597,8 +621,14 @@ class Engine:
         self.last_check_step = self.step
         self.digest_checks += 1
         bad = self.monitor.check()
+        recent = self.monitor.writes[self.writes_seen :]
+        self.writes_seen = len(self.monitor.writes)
         for label, path in bad:
-            last_write = self.monitor.writes[-1] if self.monitor.writes else None
+            last_write = recent[-1] if recent else None
+            for w in reversed(recent):  # prefer a traced store that is on the diff path
+                if any(p == w[0] for p in (path or ())):
+                    last_write = w
+                    break
             locus = attr_locus(path)
             if last_write is not None:
                 # a traced attribute store on the diff path names the site exactly
@@ -641,8 +671,16 @@ class Engine:
         self.check_digests("end")
         return self
 
-    def _runnable(self):
+    def _unfinished(self):
         return [c for c in range(self.n) if not self.finished[c]]
+
+    def _runnable(self):
+        """Callers a strategy may give the baton to: unfinished and not known to
+        be blocked on a real lock (see _wait_for_run).  If only blocked callers
+        are left, those (the lock holder is done, so they can proceed)."""
+        un = self._unfinished()
+        free = [c for c in un if c not in self.blocked]
+        return free or un
 
     def _decide(self, cur, cur_ok, mid_op):
         runnable = self._runnable()
@@ -694,6 +732,7 @@ class Engine:
         return k, op, out
 
     def _after_op(self, c, k, op, out):
+        self.hold_until_boundary.discard(c)
         self.step += 1
         self.check_digests(f"after op {c}.{k}")
         if self.on_boundary is not None:
@@ -745,7 +784,7 @@ class Engine:
         else:
             self.current = first
             self.sems[first].release()
-            ok = self.main_sem.acquire(timeout=120)
+            ok = self._wait_for_run()
             if not ok or self.harness_error is not None:
                 self.killed = True
             for c in range(self.n):  # wake parked / idle callers so they exit
@@ -756,6 +795,42 @@ class Engine:
             t.join(timeout=30)
             if t.is_alive():
                 raise HarnessError("caller thread did not exit")
+
+    def _wait_for_run(self):
+        """Main thread: wait until the last caller finishes.  valida takes no
+        locks, but a change to it might: if the caller holding the baton blocks
+        on a real lock that a *parked* caller holds, nobody can run.  That is
+        noticed here as LOCK_STALL_S seconds without a single step; the baton is
+        then given to the most recently parked caller (the likely holder) and
+        the blocked one parks itself at its next pre-emption point.  (Wall-clock
+        based, and the one place where two callers can briefly overlap; it never
+        triggers on a valida without locks and is counted in the evidence.)"""
+        import time
+
+        deadline = time.monotonic() + RUN_WALL_LIMIT
+        last = None
+        since = time.monotonic()
+        while True:
+            if self.main_sem.acquire(timeout=0.25):
+                return True
+            now = time.monotonic()
+            prog = (self.step, self.seq, self.switches)
+            if prog != last:
+                last, since = prog, now
+            elif now - since > LOCK_STALL_S:
+                holders = [c for c in reversed(self.park_order) if not self.finished[c] and c != self.current and c not in self.blocked]
+                if not holders:
+                    return False
+                blocked, new = self.current, holders[0]
+                self.lock_stalls += 1
+                self.blocked.add(blocked)
+                self.log("unblock", self.step, blocked, new)
+                self.current = new
+                self.hold_until_boundary.add(new)  # the likely lock holder: let it finish its operation
+                self.sems[new].release()
+                since = now
+            if now > deadline:
+                return False
 
     def _caller(self, c):
         self.sems[c].acquire()
@@ -792,7 +867,7 @@ class Engine:
             self.finished[c] = True
         finally:
             sys.settrace(None)
-            if self.harness_error is not None or self.killed or not self._runnable():
+            if self.harness_error is not None or self.killed or not self._unfinished():
                 self.main_sem.release()
 
     def _handoff(self, c, t, site, wait=True):
@@ -801,7 +876,16 @@ class Engine:
         self.suspended_site[c] = site
         self.log("switch", self.step, c, t, site)
         self.current = t
-        self.sems[t].release()
+        if wait:
+            if c in self.park_order:
+                self.park_order.remove(c)
+            self.park_order.append(c)
+        if t in self.blocked:
+            # t is not parked on its semaphore: it is blocked on a real lock and
+            # simply gets the baton for when it acquires it
+            self.blocked.discard(t)
+        else:
+            self.sems[t].release()
         if wait:
             self.sems[c].acquire()
             if self.killed:
@@ -823,7 +907,19 @@ class Engine:
     def _point(self, c, frame):
         """A pre-emption point inside an operation of caller c."""
         if c != self.current:
-            raise HarnessError(f"baton exclusivity violated: caller {c} runs while {self.current} holds the baton")
+            if c in self.blocked:
+                # this caller was blocked on a real lock and the baton was taken
+                # from it (see _wait_for_run): it has the lock now; park until
+                # it is given the baton again
+                self.blocked.discard(c)
+                if c in self.park_order:
+                    self.park_order.remove(c)
+                self.park_order.append(c)
+                self.sems[c].acquire()
+                if self.killed:
+                    raise SimKill()
+            else:
+                raise HarnessError(f"baton exclusivity violated: caller {c} runs while {self.current} holds the baton")
         self.step += 1
         step = self.step
         self.op_local_steps[c] += 1
@@ -852,6 +948,8 @@ class Engine:
                 self.global_token = tok
                 self.write_since_last_point = True  # a store into process-wide state
                 self.global_writes += 1
+        if c in self.hold_until_boundary:
+            return  # (see _wait_for_run) no voluntary switch while it may hold a real lock
         self.cur_frame = frame
         t = self._decide(c, True, True)
         self.cur_frame = None
